@@ -476,6 +476,12 @@ def run_case(case, ctx):
     if any(e["o"] != 0 for e in net["edges"]):
         cls.add("edge:oneway")
     sig = (repr(net["nodes"]), repr(net["edges"]), repr(net["index"]), repr(case["matchings"]))
+    xs_ = [p[0] for e in net["edges"] for p in e["pts"]]
+    ys_ = [p[1] for e in net["edges"] for p in e["pts"]]
+    if max(xs_) == min(xs_) or max(ys_) == min(ys_):
+        # the whole network lies on one horizontal or vertical line: the grid index cannot be built on a zero-width /
+        # zero-height extent (out of the domain of the index, see C08)
+        return gen.ood("network extent has zero width or height", sorted(cls))
     network = M.call(build_network, net)
     if M.is_raised(network):
         # building the network / index / prepared distances is not C10's subject (C06-C08): inconclusive input
